@@ -46,15 +46,16 @@ def cmd_setup(args):
     """Warm the Go build cache for every harness package and make sure TLC starts."""
     ctx = vlib.Ctx("setup", "quick", 1)
     rc = 0
-    try:
-        for pk in sorted(os.listdir(vlib.HARNESS)):
-            if os.path.exists(os.path.join(vlib.HARNESS, pk, "PKG")):
-                vlib.go_build(ctx, pk)
-    except vlib.NoVerdict as e:
-        print("setup failed:", e)
-        rc = 1
-    finally:
-        ctx.cleanup()
+    import json
+    reg = json.load(open(os.path.join(vlib.ROOT, "checks", "registry.json")))
+    names = sorted({h for r in reg.values() for h in r.get("harness", [])})
+    for pk in names:
+        try:
+            vlib.go_build(ctx, pk)
+        except vlib.NoVerdict as e:
+            print("setup: building harness %s failed: %s" % (pk, e))
+            rc = 1
+    ctx.cleanup()
     sys.exit(rc)
 
 
